@@ -90,7 +90,7 @@ func vpC14_O1() {
 	vpAssume(new(big.Int).Add(kssRandomizer, randomizers["secretkey"]).Cmp(lim) < 0)
 	respReq, challenge, err := KeyshareUserResponseRequest(builders, randomizers, hashInput, ctx, nonce, issig)
 	vpAssert("user response request", err == nil)
-	respReq.Context = ctx
+	// (the request is used as the library returns it: it has to carry the context itself)
 
 	d := vpBig("d")
 	vpAssume(d.Sign() != 0)
